@@ -95,7 +95,7 @@ def exMerge (env : Env) (tgt : List String) (src : MergeSource) (updates : List 
           | some (_, c) =>
             (match cols[vi.2]? with
               | some tc => addColumnLineage g (mkSrc c) tc
-              | none => .error (.internal "merge:insert_columns[j]"))
+              | none => .ok g)          -- more values than insert columns: the surplus values are skipped (D14 repair)
           | none => .ok g) g) g
 
 /-- `CopyExtractor.extract` (extractors/copy.py), `COPY tgt FROM 'path'` -/
